@@ -48,5 +48,8 @@ def run(chk):
     chk.floor("C03-D6.relations", nr6, 4, "local polynomial rules with closed-form hierarchy relations")
     from rules import cache
     cache.size_cache_rule(chk, db, "C03-D7.cache")
+    chk.rule("C03-D8.params", "every rebuild of the one dimensional node cache inside a Global grid uses the grid's own rule, alpha and beta: nodes rebuilt with other parameters move under values "
+                              "that stay where they were, and the interpolant stops reproducing its space (obligations of C02-D5)")
+    c02.params_rule(chk, db, "C03-D8.params")
     return expl + (" Added: column/value agreement of the Kronecker Vandermonde pattern and the work-set selection of every grid method (the listed space, the evaluated surrogate and the weights "
                    "refer to the same point set); tensor-product structure of the basis value routines; coherence of the size-validated parent-DAG cache behind the weights.")
